@@ -29,8 +29,9 @@ import (
 
 // Family `integrity` (property C04): CheckIntegrity and the decode loop on byte strings.
 //
-//	integ   [chk=0|1] [rb=<n>] b:<hex>                      → ci=ok:<seq>|err:<class>:<seq> dec=ok:<seq>:<msgs>|err:<class>:<seq>
-//	integcx <flip|burst|trunc> [lo=<byte>] [hi=<byte>] [len=<k> pat=<w>] [chk=..] b:<hex>
+//	integ   [chk=0|1] [rb=<n>] [rd=<reader>] [eo=<n> el=<len>] b:<hex>   (eo: the bytes ARE real encoder output, n sequences, 14-byte headers)
+//	                                                         → ci=ok:<seq>|err:<class>:<seq> dec=ok:<seq>:<msgs>|err:<class>:<seq>
+//	integcx <flip|burst|trunc> [lo=<byte>] [hi=<byte>] [end=<byte>] [len=<k> pat=<w>] [chk=..] [eo=<n> el=<len>] b:<hex>
 //	                                                         → n=<corruptions> ci_ok=<accepted> dec_ok=<accepted> h=<digest of outcome classes>
 //	integv  b:<hex>                                          → ok:<seq> | bad:<seq>   (CheckIntegrity only; spec mode = the reference)
 //	fitformat b:<hex>                                        → segments of the raw decoder: H<off>+<len> D.. M.. C..
@@ -66,6 +67,7 @@ func integErrClass(err error) string {
 type integOpts struct {
 	chk bool
 	rb  int
+	rd  int // how the reader delivers the bytes (integReader)
 	kv  map[string]string
 	b   []byte
 }
@@ -92,6 +94,8 @@ func parseIntegArgs(args []string) (o integOpts, ok bool) {
 			o.chk = kv[1] != "0"
 		case "rb":
 			o.rb, _ = strconv.Atoi(kv[1])
+		case "rd":
+			o.rd, _ = strconv.Atoi(kv[1])
 		}
 	}
 	return o, seen
@@ -108,16 +112,87 @@ func (o integOpts) decOptions() []decoder.Option {
 	return opts
 }
 
+// integChunkReader hands out the chunks one per Read (a chunk larger than p in several reads); with eofWithLast the
+// LAST data comes together with io.EOF, as the io.Reader contract allows (iotest.DataErrReader, network bodies, …).
+type integChunkReader struct {
+	chunks      [][]byte
+	eofWithLast bool
+}
+
+func (r *integChunkReader) Read(p []byte) (int, error) {
+	for len(r.chunks) > 0 && len(r.chunks[0]) == 0 {
+		r.chunks = r.chunks[1:]
+	}
+	if len(r.chunks) == 0 {
+		return 0, io.EOF
+	}
+	n := copy(p, r.chunks[0])
+	r.chunks[0] = r.chunks[0][n:]
+	for len(r.chunks) > 0 && len(r.chunks[0]) == 0 {
+		r.chunks = r.chunks[1:]
+	}
+	if r.eofWithLast && len(r.chunks) == 0 {
+		return n, io.EOF
+	}
+	return n, nil
+}
+
+// integSeqChunks cuts b where the file headers say the sequences end (what is left over is the last chunk)
+func integSeqChunks(b []byte) [][]byte {
+	var chunks [][]byte
+	for len(b) >= 12 && (b[0] == 12 || b[0] == 14) {
+		n := int(b[0]) + int(binary.LittleEndian.Uint32(b[4:8])) + 2
+		if n <= 0 || n >= len(b) {
+			break
+		}
+		chunks = append(chunks, b[:n])
+		b = b[n:]
+	}
+	return append(chunks, b)
+}
+
+// integReader: rd=0 bytes.Reader (EOF on a call of its own); rd=1 everything in one Read TOGETHER with io.EOF;
+// rd=2 one sequence per Read, the last data together with io.EOF; rd=3 one sequence per Read, EOF on a call of its own;
+// rd=4 iotest.DataErrReader semantics over 7-byte reads; rd=5 one byte per Read.
+// The verdict must not depend on it (the model reads the byte string): "however the reader delivers it" is C08's
+// sentence, but a reader that reports io.EOF with its last data must not make CheckIntegrity accept trailing garbage
+// or reject an intact file (seeded changes C04-6, C04-9).
+func integReader(rd int, b []byte) io.Reader {
+	c := append([]byte(nil), b...)
+	switch rd {
+	case 1:
+		return &integChunkReader{chunks: [][]byte{c}, eofWithLast: true}
+	case 2:
+		return &integChunkReader{chunks: integSeqChunks(c), eofWithLast: true}
+	case 3:
+		return &integChunkReader{chunks: integSeqChunks(c)}
+	case 4:
+		var chunks [][]byte
+		for len(c) > 7 {
+			chunks = append(chunks, c[:7])
+			c = c[7:]
+		}
+		return &integChunkReader{chunks: append(chunks, c), eofWithLast: true}
+	case 5:
+		chunks := make([][]byte, len(c))
+		for i := range c {
+			chunks[i] = c[i : i+1]
+		}
+		return &integChunkReader{chunks: chunks}
+	}
+	return bytes.NewReader(b)
+}
+
 // integRun: outcome codes and printable outcomes of CheckIntegrity and of the decode loop.
 func integRun(o integOpts, b []byte) (ci string, dec string) {
-	d := decoder.New(bytes.NewReader(b), o.decOptions()...)
+	d := decoder.New(integReader(o.rd, b), o.decOptions()...)
 	n, err := d.CheckIntegrity()
 	if err == nil {
 		ci = fmt.Sprintf("ok:%d", n)
 	} else {
 		ci = fmt.Sprintf("err:%s:%d", integErrClass(err), n)
 	}
-	d = decoder.New(bytes.NewReader(b), o.decOptions()...)
+	d = decoder.New(integReader(o.rd, b), o.decOptions()...)
 	seq, msgs := 0, 0
 	for d.Next() {
 		fit, err := d.Decode()
@@ -145,7 +220,7 @@ func execIntegV(args []string) string {
 	if !ok {
 		return "bad-op"
 	}
-	n, err := decoder.New(bytes.NewReader(o.b), o.decOptions()...).CheckIntegrity()
+	n, err := decoder.New(integReader(o.rd, o.b), o.decOptions()...).CheckIntegrity()
 	if err == nil {
 		return fmt.Sprintf("ok:%d", n)
 	}
@@ -205,6 +280,10 @@ func execIntegCx(args []string) string {
 	if hi > ln {
 		hi = ln
 	}
+	lim := geti("end", ln) // a burst must end before this byte offset
+	if lim > ln {
+		lim = ln
+	}
 	var inputs [][]byte
 	switch kind {
 	case "flip":
@@ -217,7 +296,7 @@ func execIntegCx(args []string) string {
 			return "bad-op"
 		}
 		for p := 8 * lo; p < 8*hi; p++ {
-			if p+k <= 8*ln {
+			if p+k <= 8*lim {
 				inputs = append(inputs, integXorAt(o.b, p, uint32(w)))
 			}
 		}
@@ -534,7 +613,10 @@ func integRandCfg(rng *Rng) integEncCfg {
 	}
 }
 
-func integOp(chk bool, rb int, b []byte) string {
+func integOp(chk bool, rb int, b []byte) string { return integOpX(chk, rb, "", b) }
+
+// integOpX: extra = further k=v tokens (" eo=2", " rd=1", …)
+func integOpX(chk bool, rb int, extra string, b []byte) string {
 	s := "integ"
 	if !chk {
 		s += " chk=0"
@@ -542,7 +624,31 @@ func integOp(chk bool, rb int, b []byte) string {
 	if rb > 0 {
 		s += fmt.Sprintf(" rb=%d", rb)
 	}
-	return s + " b:" + hex.EncodeToString(b)
+	return s + extra + " b:" + hex.EncodeToString(b)
+}
+
+// integRd: now and then the bytes reach the decoder through a reader that fragments them / reports io.EOF with its last data
+func integRd(rng *Rng, one int) string {
+	if rng.Intn(one) != 0 {
+		return ""
+	}
+	rd := 1 + rng.Intn(5)
+	count(fmt.Sprintf("reader=%d", rd))
+	return fmt.Sprintf(" rd=%d", rd)
+}
+
+// integSpans: (start, end) of the sequences of an encoder output (header size + data size + 2 each)
+func integSpans(b []byte) (spans [][2]int) {
+	off := 0
+	for off+12 <= len(b) {
+		n := int(b[off]) + int(binary.LittleEndian.Uint32(b[off+4:off+8])) + 2
+		if n <= 0 || off+n > len(b) {
+			break
+		}
+		spans = append(spans, [2]int{off, off + n})
+		off += n
+	}
+	return
 }
 
 func integFixtures() (paths []string) {
@@ -743,6 +849,9 @@ func genIntegrity(emit func(string), tier string, rng *Rng) {
 			if len(b) <= 4096 || thorough {
 				emit(integOp(false, 0, b))
 			}
+			if rd := integRd(rng, 2); rd != "" {
+				emit(integOpX(true, 0, rd, b))
+			}
 		}
 		if len(b) <= 4096 {
 			small = append(small, b)
@@ -762,20 +871,53 @@ func genIntegrity(emit func(string), tier string, rng *Rng) {
 		nfiles, sweepMax = 1500, 2048
 	}
 	var outputs [][]byte
+	// tag of an operation whose bytes ARE the output of the real encoder for a chain of n sequences with 14-byte headers:
+	// the driver's property predicate must then find them to be "encoder output" (fail:not-encoder-output, never n/a)
+	tags := map[string]string{}
+	addOutput := func(cfg integEncCfg, b []byte) {
+		count("enc:" + fmt.Sprintf("hdr12=%v,chain=%d", cfg.hdr12, cfg.chain))
+		outputs = append(outputs, b)
+		tag := ""
+		if !cfg.hdr12 {
+			tag = fmt.Sprintf(" eo=%d el=%d", cfg.chain, len(b))
+			tags[string(b)] = tag
+			count("tagged-encoder-output")
+		}
+		emit(integOpX(true, []int{0, 0, 765, 1000, 100000}[rng.Intn(5)], tag, b))
+		emit(integOp(false, 0, b))
+		if rd := integRd(rng, 2); rd != "" {
+			emit(integOpX(true, 0, tag+rd, b))
+		}
+		emit("fitformat b:" + hex.EncodeToString(b))
+	}
 	for i := 0; i < nfiles; i++ {
 		cfg := integRandCfg(rng)
 		b := integEncode(rng, cfg)
 		if b == nil {
 			continue
 		}
-		count("enc:" + fmt.Sprintf("hdr12=%v,chain=%d", cfg.hdr12, cfg.chain))
-		outputs = append(outputs, b)
-		emit(integOp(true, []int{0, 0, 765, 1000, 100000}[rng.Intn(5)], b))
-		emit(integOp(false, 0, b))
-		emit("fitformat b:" + hex.EncodeToString(b))
+		addOutput(cfg, b)
+	}
+	// small chains (two or three short sequences, 14-byte headers), so that chains are swept in the quick tier too
+	nsmallChains := 4
+	if thorough {
+		nsmallChains = 60
+	}
+	var smallChains [][]byte
+	for tries := 0; len(smallChains) < nsmallChains && tries < 40*nsmallChains; tries++ {
+		cfg := integRandCfg(rng)
+		cfg.hdr12, cfg.chain = false, 2+rng.Intn(2)
+		b := integEncode(rng, cfg)
+		if b == nil || len(b) > 330 {
+			continue
+		}
+		addOutput(cfg, b)
+		smallChains = append(smallChains, b)
+		count("small-chain")
 	}
 	sweep := func(b []byte) {
 		h := hex.EncodeToString(b)
+		tag := tags[string(b)]
 		hs := 14
 		if len(b) > 0 && b[0] == 12 {
 			hs = 12
@@ -783,9 +925,23 @@ func genIntegrity(emit func(string), tier string, rng *Rng) {
 		if hs > len(b) {
 			hs = len(b)
 		}
-		emit(fmt.Sprintf("integcx trunc b:%s", h))
+		emit(fmt.Sprintf("integcx trunc%s b:%s", tag, h))
+		if spans := integSpans(b); tag != "" && len(spans) > 1 {
+			// a chain: the records and trailing CRC of each sequence separately (bursts end inside the sequence), its header separately
+			for _, sp := range spans {
+				emit(fmt.Sprintf("integcx flip lo=%d hi=%d b:%s", sp[0], sp[0]+14, h))
+				emit(fmt.Sprintf("integcx flip lo=%d hi=%d%s b:%s", sp[0]+14, sp[1], tag, h))
+				for _, k := range []int{2, 9, 16} {
+					w := 1<<(k-1) | 1 | (rng.Intn(1<<(k-2)) << 1)
+					emit(fmt.Sprintf("integcx burst len=%d pat=%d lo=%d hi=%d end=%d%s b:%s", k, w, sp[0]+14, sp[1], sp[1], tag, h))
+				}
+				emit(fmt.Sprintf("integcx burst len=16 pat=%d lo=%d hi=%d b:%s", 1<<15|1|(rng.Intn(1<<14)<<1), sp[0], sp[0]+14, h))
+			}
+			count("sweep-chain")
+			return
+		}
 		emit(fmt.Sprintf("integcx flip lo=0 hi=%d b:%s", hs, h))
-		emit(fmt.Sprintf("integcx flip lo=%d b:%s", hs, h))
+		emit(fmt.Sprintf("integcx flip lo=%d%s b:%s", hs, tag, h))
 		for k := 2; k <= 16; k++ {
 			pats := []int{1<<k - 1, 1<<(k-1) | 1}
 			if k > 2 {
@@ -798,7 +954,7 @@ func genIntegrity(emit func(string), tier string, rng *Rng) {
 				pats = pats[len(pats)-1:]
 			}
 			for _, w := range pats {
-				emit(fmt.Sprintf("integcx burst len=%d pat=%d lo=%d b:%s", k, w, hs, h))
+				emit(fmt.Sprintf("integcx burst len=%d pat=%d lo=%d%s b:%s", k, w, hs, tag, h))
 			}
 		}
 		emit(fmt.Sprintf("integcx burst len=16 pat=%d lo=0 hi=%d b:%s", 1<<15|1|(rng.Intn(1<<14)<<1), hs, h))
@@ -811,7 +967,17 @@ func genIntegrity(emit func(string), tier string, rng *Rng) {
 		maxSweeps = 700
 	}
 	nlong := 0
+	for _, b := range smallChains {
+		sweep(b)
+	}
+	swept := map[string]bool{}
+	for _, b := range smallChains {
+		swept[string(b)] = true
+	}
 	for _, b := range append(append([][]byte(nil), small...), outputs...) {
+		if swept[string(b)] {
+			continue
+		}
 		if len(b) <= sweepMax && nsweep < maxSweeps {
 			if len(b) > 200 {
 				if nlong >= 60 {
@@ -864,7 +1030,40 @@ func genIntegrity(emit func(string), tier string, rng *Rng) {
 		case 4:
 			b = integMutate(rng, f)
 		}
-		emit(integOp(rng.Intn(4) != 0, []int{0, 0, 0, 765, 5000}[rng.Intn(5)], b))
+		emit(integOpX(rng.Intn(4) != 0, []int{0, 0, 0, 765, 5000}[rng.Intn(5)], integRd(rng, 4), b))
+	}
+	// ---- (c'') encoder output followed by bytes that are no sequence, and intact chains, through readers that report
+	// io.EOF together with their last data / hand over one sequence per Read ("never silently accepted", whatever the reader)
+	nrd := 600
+	if thorough {
+		nrd = 8000
+	}
+	for i := 0; i < nrd && len(outputs) > 0; i++ {
+		f := outputs[rng.Intn(len(outputs))]
+		if len(f) > 6000 {
+			continue
+		}
+		b := append([]byte(nil), f...)
+		switch rng.Intn(4) {
+		case 0: // garbage of assorted sizes: a lone header-size byte, partial headers, a full bogus header
+			g := rng.Bytes([]int{1, 1, 2, 11, 12, 13, 14, 15, 40}[rng.Intn(9)])
+			if rng.Intn(2) == 0 {
+				g[0] = []byte{12, 14}[rng.Intn(2)]
+			}
+			b = append(b, g...)
+			count("rd:garbage")
+		case 1: // a truncated second sequence
+			g := outputs[rng.Intn(len(outputs))]
+			b = append(b, g[:rng.Intn(len(g))]...)
+			count("rd:truncated-next")
+		case 2: // a corrupted second sequence
+			g := outputs[rng.Intn(len(outputs))]
+			b = append(b, integXorAt(g, rng.Intn(8*len(g)), 1)...)
+			count("rd:corrupted-next")
+		default: // intact
+			count("rd:intact")
+		}
+		emit(integOpX(true, []int{0, 0, len(f), len(f) + 1}[rng.Intn(4)], fmt.Sprintf(" rd=%d", 1+rng.Intn(5)), b))
 	}
 	// ---- (c') developer-field surgery
 	ndev := 3000
